@@ -52,14 +52,30 @@ def expected_writes(b):
     return ws
 
 
+def packed(behs):
+    """the behaviours whose chunk sequence has two php tokens in a row, marked for the free-floating packaging"""
+    out = []
+    for b in behs:
+        cs = b["chunks"]
+        if any(all(x["kind"] == "php" and x["car"] in ("src", "syn") for x in cs[i:i + 2]) for i in range(len(cs) - 1)):
+            out.append(dict(b, pack="ff"))
+    return out
+
+
 def replay(check, wp, behs, batch=400):
     """returns list of (behaviour, expected writes, observed writes) that differ"""
+    behs = behs + packed(behs)
+    check.cov["output_stage_replays"] = check.cov.get("output_stage_replays", 0) + len(behs)
     tasks = []
     for k in range(0, len(behs), batch):
         cases = []
         for b in behs[k:k + batch]:
-            cases.append({"init": b["init"],
-                          "chunks": [{"kind": c["kind"], "car": c["car"], "text": text(i + 1, c)} for i, c in enumerate(b["chunks"])]})
+            cs = [{"kind": c["kind"], "car": c["car"], "text": text(i + 1, c)} for i, c in enumerate(b["chunks"])]
+            if b.get("pack") == "ff":      # the same chunks, with every php token that has a php token after it carried as that token's free-floating
+                for i in range(len(cs) - 1):
+                    if all(x["kind"] == "php" and x["car"] in ("src", "syn") for x in cs[i:i + 2]):
+                        cs[i]["ff"] = True
+            cases.append({"init": b["init"], "chunks": cs})
         tasks.append({"op": "print_chunks", "cases": cases, "limit_ms": 60000})
     bad = []
     for k, r in enumerate(wp.run(tasks)):
@@ -91,4 +107,7 @@ def classify(b, want, got):
         what = "missing-" + names[w]
     else:
         what = "chunk-text"
-    return {"class": "printer-output-stage", "what": what, "all_source": allsrc}
+    sig = {"class": "printer-output-stage", "what": what, "all_source": allsrc}
+    if b.get("pack"):
+        sig["packaging"] = b["pack"]
+    return sig
